@@ -641,18 +641,26 @@ class Enumerator:
             if so.exit != "fall":
                 res.append(so)
                 continue
+            carry = [[]]      # events of failed guards of earlier arms that lead to this arm
             for arm in e["arms"]:
                 p = pat_canon(arm["pat"], self.ren)
-                base = so.events + [Ev("arm", so.val, p, node=arm)]
-                alts = [(base, True)]
-                if arm.get("guard") is not None:
-                    alts = [(base + evs, t) for evs, t in self.cond_alts(arm["guard"])]
-                for evs, t in alts:
-                    if not t:
-                        continue
-                    for o in self.expr(arm["body"]):
-                        self._budget()
-                        res.append(PathOut(evs + o.events, o.exit, o.val, o.label, o.valnode))
+                new_carry = []
+                for c in carry:
+                    base = so.events + c + [Ev("arm", so.val, p, node=arm)]
+                    alts = [(base, True)]
+                    if arm.get("guard") is not None:
+                        alts = [(base + evs, t) for evs, t in self.cond_alts(arm["guard"])]
+                    for evs, t in alts:
+                        if not t:
+                            # the guard failed: later arms are tried with these conditions known
+                            new_carry.append(evs[len(so.events):-0 or None][:])
+                            continue
+                        for o in self.expr(arm["body"]):
+                            self._budget()
+                            res.append(PathOut(evs + o.events, o.exit, o.val, o.label, o.valnode))
+                # drop the `arm` marker of the failed arm from the carried prefix but keep its guard conditions
+                for nc in new_carry:
+                    carry.append([ev for ev in nc if ev.kind != "arm"])
         return res
 
     def x_Block(self, e):
@@ -742,6 +750,22 @@ class Enumerator:
                 else:
                     res.append(PathOut(evs, o.exit, o.val, o.label, o.valnode))
         return res
+
+
+def subst_lets(text, lets, rounds=4):
+    """Substitute let-bound simple names in a canonical string by their (canonical) initialisers."""
+    for _ in range(rounds):
+        changed = False
+        for k, v in lets.items():
+            if not re.match(r"^[A-Za-z_][A-Za-z_0-9]*$", k) or v is None or k == v:
+                continue
+            t2 = re.sub(r"(?<![A-Za-z_0-9.])%s(?![A-Za-z_0-9(])" % re.escape(k), lambda m: v, text)
+            if t2 != text:
+                text = t2
+                changed = True
+        if not changed:
+            break
+    return text
 
 
 def enum_paths(node, ren=None, max_paths=40000):
